@@ -1,13 +1,12 @@
 """C14 Sink adaptors route every item to the right sink, once, in order (engine Push, sinktools part)."""
 from tools import push, vlib
 
-KEY_RECLOSE = "unzip/poll_close-after-close-completed"
 
 
 class C14(vlib.Spec):
     model_vo = ["theories/Push/SinkRun.vo"]
     props_vo = "theories/Props/C14.vo"
-    theorems = ["C14_filter_map", "C14_map", "C14_filter", "C14_lazy_init_once_partial", "C14_unzip_strict_refuted"]
+    theorems = ["C14_filter_map", "C14_map", "C14_filter", "C14_lazy_init_once_partial"]
     level = "other"
     crate, group, binary = "h_push", "light", "h_push"
     shrink_rounds = 20
@@ -37,12 +36,6 @@ class C14(vlib.Spec):
 
     def shrink(self, case):
         return push.shrink_sink(case)
-
-    def finding_key(self, case, res):
-        if case["comb"] == "unzip" and "logs" in res and push.sink_weak_holds(case, res) \
-                and any(push.slog_reclosed(l) for l in res["logs"]):
-            return KEY_RECLOSE
-        return None
 
     def nontrivial(self, case, res):
         logs = res.get("logs", [])
